@@ -109,3 +109,20 @@ def default_product(tier):
         d.update(c)
         out.append(d)
     return out
+
+
+def real_product(tier):
+    """Conformance of the analytic environments: the same oracles on a real pycalphad backend (Al-Zr, FCC_A1 + AL3ZR)."""
+    quick = tier == 'quick'
+    base = {'system': 'alzr', 'site': 'dislocations', 'tf': 3.6e5, 'constraints': {'dtScale': 0.05}, 'max_steps': 4000}
+    cases = [{'temp': 'alzr_iso', 'it': 'euler'}, {'temp': 'alzr_iso', 'it': 'rk4', 'split': 3}]
+    if not quick:
+        cases += [{'temp': 'alzr_ramp', 'it': 'euler'}, {'temp': 'alzr_iso', 'it': 'euler', 'precdiff': 'none'},
+                  {'temp': 'alzr_iso', 'it': 'euler', 'site': 'grain boundaries', 'gbe': 0.1},
+                  {'temp': 'alzr_iso', 'it': 'rk4', 'vm': 1.3, 'adaptive': False}]
+    out = []
+    for c in cases:
+        d = dict(base)
+        d.update(c)
+        out.append(d)
+    return out
